@@ -229,4 +229,9 @@ Definition run (op : bytes) (args : list val) : val :=
              | None => VBad end
     | _ => VBad end
   else if op_is op "z.prov" then z_1 (fun x => val_of_R (fun v => v) (dz_prov x))
+  (* FixedOffset::east / west (deprecated): east_opt(secs).expect(..) / west_opt(secs).expect(..) *)
+  else if op_is op "z.peast" then
+    match args with [a] => match arg_i32 a with Some s => val_of_R VInt (unwrap (east_opt s)) | None => VBad end | _ => VBad end
+  else if op_is op "z.pwest" then
+    match args with [a] => match arg_i32 a with Some s => val_of_R VInt (unwrap_r (west_opt s)) | None => VBad end | _ => VBad end
   else VErr B"NOOP".
